@@ -505,6 +505,46 @@ def check_whole_sink(cfg, w, rep, g):
     for rd in fails:
         if copies and prog.cfg(body).can_reach(copies[0][0].i, rd.blk):
             ok = False
+    # the position moves on by exactly what was copied: the copy goes to [pos .. pos + len(buf)) and the position parameter is then
+    # set to that same end (a position set to anything else makes the next chunk overwrite or skip bytes of this one, while the
+    # digest and the byte count still see every byte)
+    if copies:
+        dst = w.sym.of_operand(body, copies[0][1].args[0])
+        rng = None
+        for e_ in (dst[3] if dst[0] in ("param", "call", "field") and len(dst) > 3 else ()):
+            if e_[0] == "[]" and len(e_) > 1 and isinstance(e_[1], tuple) and e_[1][0] == "agg" and e_[1][1] == "std::ops::Range":
+                rng = dict(e_[1][3])
+        pos_assigns = []
+        for bb_ in body.blocks:
+            if bb_.cleanup:
+                continue
+            for st_ in bb_.stmts:
+                if st_.k == "assign" and st_.place.proj and 1 <= st_.place.local <= body.arg_count and st_.place.local - 1 != bi and \
+                        all(e2.get("k") == "deref" for e2 in st_.place.proj):
+                    pos_assigns.append((st_.place.local - 1, w.sym.of_operand(body, st_.rv.ops[0]) if st_.rv.k == "use" else None))
+        if rng is not None:
+            start, end = rng.get("start"), rng.get("end")
+            pos_ok = start is not None and start[0] == "param" and start[1] == g.path and len(pos_assigns) == 1 and \
+                pos_assigns[0][0] == start[2] and pos_assigns[0][1] is not None and teq(pos_assigns[0][1], end)
+            from ..symval import walk as _walk
+            if not pos_ok and start is not None and len(pos_assigns) == 1 and pos_assigns[0][0] == start[2] and pos_assigns[0][1] is not None:
+                # `*pos += buf.len()` / `*pos = *pos + buf.len()`: the same end, computed again
+                pt = pos_assigns[0][1]
+                if pt[0] == "op" and "Add" in str(pt[1]) and len(pt[2]) == 2 and any(teq(a_, start) for a_ in pt[2]) and any(
+                        a_[0] == "call" and a_[1].endswith("::len") and a_[2] and a_[2][0] == ("param", g.path, bi, ()) for a_ in pt[2]):
+                    pos_ok = True
+            end_ok = end is not None and any(st_[0] == "call" and st_[1].endswith("::len") and st_[2] and st_[2][0] == ("param", g.path, bi, ()) for st_ in _walk(end)) \
+                and any(st_ == start for st_ in _walk(end))
+            if pos_ok and end_ok:
+                rep.ob(cfg, "a-whole-sink", key + ".position", "`%s` copies to [pos .. pos + len(buf)) and sets pos to that end" % short(g.path))
+            else:
+                ok = False
+                rep.violation("a-whole-pos:%s" % key,
+                              "`%s` does not advance its position by exactly what it copied (copies to [%s .. %s), then sets the position to %s): the next "
+                              "chunk would overwrite or skip bytes of this one while the digest still sees every byte" % (
+                                  short(g.path), term_str(start)[:30] if start else "?", term_str(end)[:60] if end else "?",
+                                  term_str(pos_assigns[0][1])[:60] if pos_assigns and pos_assigns[0][1] else "nothing / several values"),
+                              loc=body.loc(), config=cfg, rule="a-whole-sink")
     if ok and rets:
         rep.ob(cfg, "a-whole-sink", key, "`%s` returns Ok(buf.len()) only after copying the whole buf into the mapping, and fails only before touching it" % short(g.path))
     else:
